@@ -43,7 +43,14 @@ def lex(fb, text, max_tokens=12):
                     return some(st.chars[st.pos - 1])
                 return none()
             if c.endswith("Peekable::next_if") or c.endswith("Peekable::next_if_eq"):
-                return UNKNOWN
+                if st.pos >= len(st.chars):
+                    return none()
+                ch = st.chars[st.pos]
+                take = mc.call_value(a[1], [ch]) if c.endswith("next_if") else (ch == absint.deref(a[1]))
+                if take is True:
+                    st.pos += 1
+                    return some(ch)
+                return none() if take is False else UNKNOWN
         if c.endswith("<impl str>::parse") or c.endswith("str::parse"):
             dty = g.local_ty(tt["dest"]["local"]) or ""
             gens = (tt.get("fn") or {}).get("generics") or []
